@@ -7,7 +7,7 @@ import json, os, shutil, subprocess, sys, time
 
 seed, name, prop = sys.argv[1], sys.argv[2], sys.argv[3]
 checks = sys.argv[4:] or [prop]
-V = '/verif'
+V = os.environ.get('SEEDTEST_V', '/verif')       # where the checks run (a copy of /verif lets several seeds be tried at once)
 patch = os.path.join(seed, 'patch.diff')
 demo = os.path.join(seed, 'demo.py')
 
@@ -66,7 +66,7 @@ finally:
     else:
         sh('git -C /repo checkout -- .')
 meta['detected_by'] = [c for c, r in meta['checks'].items() if r['exit'] != 0]
-dst = os.path.join(V, 'seeded', name)
+dst = os.path.join('/verif', 'seeded', name)
 os.makedirs(dst, exist_ok=True)
 for f in ('patch.diff', 'demo.py', 'notes.md'):
     if os.path.exists(os.path.join(seed, f)):
